@@ -210,9 +210,44 @@ type c02Input struct {
 }
 
 // c02Singles returns the complete single-point mutation set.
+// c02Dictionary: contents for every string position of a request - attribute options, transfer options behind bytes
+// whose case mapping changes their length, wildcards, separators, escapes, NULs, invalid and unusual UTF-8.
+var c02Dictionary = []string{"", ";binary", "cn;binary", "cn;BINARY", "\xff;binary", "\xff\xfe\xfd\xfc;binary", "\u023a\u023a\u023a\u023a;BINARY", "\u0130;binary", "\u1e9e;binary", "cn;lang-en;binary",
+	"*", "+", "1.1", "\x00", "(", ")", "((", "\\", "\\5c", "\\2a", "=", ",", " ", ";", ";;", "\xc3\x28", "\xed\xa0\x80", "\xf4\x90\x80\x80", "cn=a+sn=b", "cn=\\,", "1.2.840.113556.1.4.319",
+	"objectClass", "OBJECTCLASS", strings.Repeat("a", 300), strings.Repeat(";binary", 40), strings.Repeat("\xff", 64) + ";binary"}
+
+// c02Contents: every primitive string leaf inside the protocolOp of the control-less canonical requests, with every
+// dictionary entry as its content (the shape stays well-formed; what changes is what the strings say).
+func c02Contents() []c02Input {
+	var out []c02Input
+	for _, cn := range canonicals() {
+		if !strings.HasSuffix(cn.Name, "+none") {
+			continue
+		}
+		var paths [][]int
+		allPaths(cn.Tree, nil, &paths)
+		for _, p := range paths {
+			if len(p) == 0 || p[0] != 1 {
+				continue
+			}
+			_, n := nodeAt(cn.Tree, p)
+			if n == nil || n.Constructed || n.Inner != nil || (n.Class == sber.Universal && n.Tag != sber.TagOctetString) {
+				continue
+			}
+			for di, d := range c02Dictionary {
+				root := cn.Tree.Clone()
+				_, m := nodeAt(root, p)
+				m.Content = []byte(d)
+				out = append(out, c02Input{fmt.Sprintf("%s|%v:content/%d", cn.Name, p, di), root.Encode()})
+			}
+		}
+	}
+	return out
+}
+
 func c02Singles() []c02Input {
 	reps := replacements()
-	var out []c02Input
+	out := c02Contents()
 	for _, cn := range canonicals() {
 		out = append(out, c02Input{cn.Name + "|canonical", cn.Tree.Encode()})
 		for _, m := range mutationsFor(cn.Tree, len(reps)) {
